@@ -1208,14 +1208,14 @@ Section Call.
   Proof.
     intros [Hp1 Hp2] H. unfold dec_body in H. cbv zeta in H.
     assert (Hmain: forall s d s',
-      resume (Mark match rs with
-                   | Some len => dispatch c rec lf sp ts len sfun
-                   | None => let! t := read_tag lf in let! len := read_length c in dispatch c rec lf sp (t :: ts) len sfun
-                   end) s = inr (Ok d, s') -> good (S lf) sp ae sfun d).
-    { clear H. intros s1 d1 s1' H. cbn [resume] in H. destruct rs as [len|].
+      resume (match rs with
+              | Some len => dispatch c rec lf sp ts len sfun
+              | None => Mark (let! t := read_tag lf in let! len := read_length c in dispatch c rec lf sp (t :: ts) len sfun)
+              end) s = inr (Ok d, s') -> good (S lf) sp ae sfun d).
+    { clear H. intros s1 d1 s1' H. destruct rs as [len|].
       - destruct Hp1 as [Hp1|Hp1]; [discriminate|].
         apply (dispatch_good _ _ _ ae sfun _ _ _ Hp1 (fun E => Hp2 (f_equal Some E)) H).
-      - binv H. binv H.
+      - cbn [resume] in H. binv H. binv H.
         assert (Hne: a :: ts <> []) by discriminate.
         apply (dispatch_good _ _ _ ae sfun _ _ _ Hne (read_length_indef _ _ _ Ha0) H). }
     destruct (ae && support_indef c) eqn:Eae; [|apply (Hmain _ _ _ H)].
@@ -1413,4 +1413,14 @@ Proof. repeat split; vm_compute; reflexivity. Qed.
 Example empty_constructed_bits_accepted :
   decode BER (Some TBits) [35;0] = Ok (DV TBits (VBits []), []) /\ val_of TBits (VBits []) = true
   /\ decode BER (Some TBits) [3;0] = Err EMalformed.
+Proof. repeat split; vm_compute; reflexivity. Qed.
+
+(* an untagged ANY as the alternative of an untagged CHOICE holds the whole TLV (the element-start mark is
+   no longer moved on re-entry past the header): inside the fragment, and well-formed *)
+Example any_alternative_keeps_header :
+  frag (TChoice [TAny]) = true
+  /\ decode BER (Some (TChoice [TAny])) [4;1;9] = Ok (DV (TChoice [TAny]) (VChoice 0 (VAny [4;1;9])), [])
+  /\ decode DER (Some (TChoice [TInt; TAny])) [4;1;9; 7] = Ok (DV (TChoice [TInt; TAny]) (VChoice 1 (VAny [4;1;9])), [7])
+  /\ val_of (TChoice [TAny]) (VChoice 0 (VAny [4;1;9])) = true
+  /\ encode BER true 0 (TChoice [TAny]) (VChoice 0 (VAny [4;1;9])) = Ok [4;1;9].
 Proof. repeat split; vm_compute; reflexivity. Qed.
